@@ -42,3 +42,34 @@ Proof.
   match goal with H : (extsize <? 0) = false |- _ => apply Z.ltb_ge in H end.
   pstep. apply read_full_spec; [exact Hb|lia|lia|]. intros extdata _ _. cbv beta. psteps. exact I.
 Qed.
+
+(* determine_bpi never raises: the slice it unpacks always has its 10 bytes, and len + 1 rounds suffice *)
+Lemma bpi_scan_ok : forall fuel bpi data o cnt, bytes_ok data -> 0 <= o -> Z.max 0 (zlen data - o) < Z.of_nat fuel ->
+  exists r, id3_bpi_scan fuel bpi data o cnt = Ok r.
+Proof.
+  induction fuel as [|fuel IH]; intros bpi data o cnt Hb Ho Hf; [lia|].
+  cbn [id3_bpi_scan]. destruct (o <? zlen data - 10) eqn:E; [|eexists; reflexivity].
+  apply Z.ltb_lt in E. rewrite lslice_zslice.
+  destruct (list_eqb (zslice o (o + 10) data) id3_empty10); [eexists; reflexivity|].
+  rewrite zlen_zslice by lia. replace (Z.min (o + 10 - o) (Z.max 0 (zlen data - o)) =? 10) with true by (symmetry; apply Z.eqb_eq; lia).
+  cbn [negb]. cbv zeta.
+  set (part := zslice o (o + 10) data).
+  assert (Hsz : 0 <= (if bpi then mpc_bpi7 (zslice 4 8 part) else be_decode (zslice 4 8 part))).
+  { destruct bpi.
+    - pose proof (bpi7_bound (zslice 4 8 part)) as B. rewrite zlen_zslice in B by lia.
+      assert (H4 : Z.min (8 - 4) (Z.max 0 (zlen part - 4)) <= 4) by lia. specialize (B H4). lia.
+    - pose proof (be_decode_bound (zslice 4 8 part)) as B.
+      assert (Hp : bytes_ok (zslice 4 8 part)) by (apply bytes_ok_zslice, bytes_ok_zslice; exact Hb).
+      specialize (B Hp). lia. }
+  apply IH; [exact Hb|lia|lia].
+Qed.
+
+Theorem determine_bpi_total data : bytes_ok data -> exists b, id3_determine_bpi data = Ok b /\ (b = 7 \/ b = 8).
+Proof.
+  intro Hb. unfold id3_determine_bpi.
+  assert (Hf : Z.max 0 (zlen data - 0) < Z.of_nat (S (length data))) by (unfold zlen; lia).
+  destruct (bpi_scan_ok (S (length data)) true data 0 0 Hb ltac:(lia) Hf) as ([a b] & ->).
+  destruct (bpi_scan_ok (S (length data)) false data 0 0 Hb ltac:(lia) Hf) as ([c e] & ->).
+  eexists. split; [reflexivity|].
+  destruct ((a <? c) || ((c =? a) && ((1 <=? b) && (e <=? 1)))); [right|left]; reflexivity.
+Qed.
